@@ -103,6 +103,23 @@ class Opaque(object):
         return "Opaque(%s:%s)" % (self.pykind, self.name)
 
 
+class SDict(object):
+    """Dictionary with uninterpreted content (every table at once).  get(k) yields a
+    memoised maybe-absent value of kind `vkind`; `empty` is its falsiness."""
+
+    def __init__(self, name, vkind, maker):
+        self.name = name
+        self.vkind = vkind
+        self.maker = maker            # maker(interp, kind, name) -> symbolic value
+        self.memo = {}
+        self.keys_ = {}
+        self.empty = fresh("empty_" + name, z3.BoolSort())
+        self.taint = frozenset()
+
+    def __repr__(self):
+        return "SDict(%s)" % self.name
+
+
 class Obj(object):
     """Heap object of live class `cls`."""
 
@@ -281,7 +298,7 @@ def lower_bool(t):
 
 
 def is_symbolic(v):
-    return isinstance(v, (SInt, SBool, SSeq, SEnum, SOpt, Opaque, Obj, ExcVal))
+    return isinstance(v, (SInt, SBool, SSeq, SEnum, SOpt, Opaque, Obj, ExcVal, SDict))
 
 
 def taint_of(v, _depth=0):
